@@ -1,5 +1,5 @@
 """C02: application bytes received are always a prefix of the bytes the peer sent."""
-from vrun import Job
+from vrun import Job, with_alt_flavours
 
 LEVEL = 'fault_enumeration'
 RULE = ('per (suite, version) pair (all 75): clean handshake, receiver snapshotted, sender emits 3-5 short records; then against the '
@@ -26,8 +26,10 @@ NW = 16
 
 def jobs(tier, seed):
     rounds = 2 if tier == 'quick' else 8     # even rounds: records right after the handshake; odd rounds: scenario 1..3
-    return [Job('f%d' % i, 'h_tls02', ['--seed', seed, '--worker', i, '--nworkers', NW, '--pairs', 75, '--rounds', rounds],
-                libs=['-lcrypto'], timeout=900 if tier == 'quick' else 7200) for i in range(NW)]
+    # (a rotating quarter of the workers also runs on the other arithmetic configurations of the library: the record
+    #  protection code they select - GHASH and Poly1305 multiplications, AES tables - must refuse the same forgeries)
+    return with_alt_flavours([Job('f%d' % i, 'h_tls02', ['--seed', seed, '--worker', i, '--nworkers', NW, '--pairs', 75, '--rounds', rounds],
+                                  libs=['-lcrypto'], timeout=900 if tier == 'quick' else 7200) for i in range(NW)], tier, seed)
 
 
 def distinct_count(res):
